@@ -65,6 +65,21 @@ class Ctx:
         return path
 
 
+def _star(fa):
+    f, a = fa
+    return f(*a)
+
+
+def pmap(func, arglist, procs=12, chunk=32):
+    """run func(*args) for every args tuple in worker processes (real-code observation is CPU bound)"""
+    arglist = list(arglist)
+    if len(arglist) < 200:
+        return [func(*a) for a in arglist]
+    import multiprocessing
+    with multiprocessing.get_context('fork').Pool(procs) as pool:
+        return pool.map(_star, [(func, a) for a in arglist], chunksize=chunk)
+
+
 def load_known(pid):
     """open findings for this property: list of dict(finding, deviation, what)"""
     res = []
